@@ -10,6 +10,8 @@ use serde_json::{json, Value};
 fn b64u(b: &[u8]) -> String { passkey_types::encoding::base64url(b) }
 fn b64(b: &[u8]) -> String { passkey_types::encoding::base64(b) }
 fn b64_nopad(b: &[u8]) -> String { b64(b).trim_end_matches('=').to_string() }
+/// base64url with the padding a standard encoder adds
+fn b64u_padded(b: &[u8]) -> String { let mut s = b64u(b); while s.len() % 4 != 0 { s.push('='); } s }
 
 fn leaf_bytes(ctx: &mut Ctx, text: &str) {
     let doc = format!("{{\"challenge\":{}}}", text);
@@ -36,7 +38,7 @@ fn leaf_alg(ctx: &mut Ctx, text: &str) {
 
 /// one binary member in a presentation chosen by `k`
 fn present_bytes(b: &[u8], k: u64) -> Value {
-    match k % 4 { 0 => json!(b64u(b)), 1 => json!(b.iter().map(|x| *x as u64).collect::<Vec<_>>()), 2 => json!(b64(b)), _ => json!(b64_nopad(b)) }
+    match k % 5 { 0 => json!(b64u(b)), 1 => json!(b.iter().map(|x| *x as u64).collect::<Vec<_>>()), 2 => json!(b64(b)), 3 => json!(b64u_padded(b)), _ => json!(b64_nopad(b)) }
 }
 fn present_num(n: i64, k: u64) -> Value {
     match k % 4 { 0 => json!(n), 1 => json!(n.to_string()), 2 => serde_json::from_str(&format!("{}.0", n)).unwrap(), _ => json!(format!("{}.0", n)) }
@@ -126,8 +128,9 @@ pub fn gen(ctx: &mut Ctx) {
     let n = if ctx.thorough { 600 } else { 80 };
     for i in 0..n {
         let k = if i < 6 { [0usize, 1, 2, 3, 16, 33][i] } else { ctx.rng.below(70) as usize };
-        let b = ctx.rng.bytes(k);
-        for t in [format!("\"{}\"", b64u(&b)), format!("\"{}\"", b64(&b)), format!("\"{}\"", b64_nopad(&b)), format!("[{}]", b.iter().map(|x| x.to_string()).collect::<Vec<_>>().join(",")),
+        let mut b = ctx.rng.bytes(k);
+        if i % 2 == 1 { for x in b.iter_mut() { if ctx.rng.bool() { *x = *ctx.rng.pick(&[0xfbu8, 0xff, 0xfe, 0x3e, 0x3f]); } } }   // many '-' '_' / '+' '/' symbols
+        for t in [format!("\"{}\"", b64u(&b)), format!("\"{}\"", b64u_padded(&b)), format!("\"{}\"", b64(&b)), format!("\"{}\"", b64_nopad(&b)), format!("[{}]", b.iter().map(|x| x.to_string()).collect::<Vec<_>>().join(",")),
                   format!("[ {} ]", b.iter().map(|x| format!("{} ", x)).collect::<Vec<_>>().join(", "))] { leaf_bytes(ctx, &t); }
     }
     for t in ["\"!!\"", "\"AA=A\"", "\"A\"", "\"====\"", "\" AAAA\"", "[256]", "[-1]", "[1.0]", "[\"1\"]", "[1,2,", "null", "{}", "12", "true", "\"\\u0041\\u0041\"", "\"AAA+\"", "\"AAA-\"", "\"A-+A\"", "[]", "\"\""] { leaf_bytes(ctx, t); }
@@ -167,10 +170,11 @@ pub fn gen(ctx: &mut Ctx) {
     // ---- emitted credentials re-parse to an equal value; base64url round trip
     for i in 0..(if ctx.thorough { 100 } else { 15 }) {
         let emitted = crate::cl::emit_pair(ctx, i);
-        for (kind, jsons) in emitted {
+        for (kind, jsons, dbg) in emitted {
+            // equal value: the re-parsed credential renders (Debug) and serialises exactly like the emitted one
             let same = match kind.as_str() {
-                "created" => serde_json::from_str::<webauthn::CreatedPublicKeyCredential>(&jsons).map(|v| serde_json::to_string(&v).unwrap() == jsons),
-                _ => serde_json::from_str::<webauthn::AuthenticatedPublicKeyCredential>(&jsons).map(|v| serde_json::to_string(&v).unwrap() == jsons),
+                "created" => serde_json::from_str::<webauthn::CreatedPublicKeyCredential>(&jsons).map(|v| serde_json::to_string(&v).unwrap() == jsons && format!("{:?}", v) == dbg),
+                _ => serde_json::from_str::<webauthn::AuthenticatedPublicKeyCredential>(&jsons).map(|v| serde_json::to_string(&v).unwrap() == jsons && format!("{:?}", v) == dbg),
             };
             let obs = match same { Ok(true) => "same".to_string(), Ok(false) => "differs".to_string(), Err(e) => format!("err:{}", hexf(e.to_string().as_bytes())) };
             ctx.stat(&format!("c14.emit.{}.{}", kind, obs.split(':').next().unwrap()));
